@@ -94,4 +94,24 @@ def dumps (start : Nat → Nat → Nat) (maxB : Nat) : Nat → Option (FS × RM)
         let (ops, rm') := dumpOps start rm (k + 1)
         (execAll fs ops).map (fun fs' => (fs', rm'))
 
+/-- one event in the life of a run directory: a dump of state `v` that runs to its end, or the
+process being stopped and started again with `--restart` (same files, fresh manager) -/
+inductive HOp where
+  | dump (v : Nat)
+  | reboot
+deriving DecidableEq, Repr
+
+def hstep (st : FS × RM) : HOp → Option (FS × RM)
+  | .dump v =>
+    let (ops, rm') := dumpOps startFixed st.2 v
+    (execAll st.1 ops).map (fun fs' => (fs', rm'))
+  | .reboot => some (st.1, RM.fresh st.2.maxB)
+
+/-- a whole history of dumps and restarts, stopping at the first aborted dump -/
+def hrun (st : FS × RM) : List HOp → Option (FS × RM)
+  | [] => some st
+  | o :: os => match hstep st o with
+      | none => none
+      | some st' => hrun st' os
+
 end CMacVerif.Rotation
